@@ -1,4 +1,5 @@
 import MesaModel.Proofs.Registry
+import MesaModel.Proofs.RegistryFrame
 /-!
 # C02 — the model's agent registry is exact and unique_ids are unique per model
 
@@ -144,6 +145,55 @@ theorem C02_other_models_untouched (ops : List Op) (m m' : Nat) (hne : m' ≠ m)
     unfold shuffleInPlace
     rw [ht, setRng_regs, hraw]
     cases w.regs[m']? <;> simp [hne]
+
+/-- **Coexisting models never influence each other — over whole histories.**  Start from any reachable world and run any
+    history none of whose operations concerns model `m'` (`Op.avoids`: no agent created in `m'`; no agent of `m'` removed —
+    directly, by `remove_all_agents` or by a callback —; none of `m'`'s own sets reordered in place; no shuffle or `shuffle_do`
+    of a set that carries `m'`'s generator).  Everything else is allowed, in any number and order: churn in the other
+    models, new models, program-made sets, in-place reorderings, every kind of activation with callbacks that remove,
+    create, edit sets or raise.  Then the registry of `m'` — members, order, by-type sets, id counter, generator — is
+    exactly what it was, and `m'` has the same agents. -/
+theorem C02_other_models_untouched_all_histories (ops0 ops : List Op) (m' : Nat)
+    (hm : m' < (run World.empty ops0).regs.length)
+    (hav : ∀ pre op post, ops = pre ++ op :: post →
+      Op.avoids (run World.empty ops0) m' (run (run World.empty ops0) pre) op) :
+    (run (run World.empty ops0) ops).regs[m']? = (run World.empty ops0).regs[m']? ∧
+    ∀ b, modelOfI (run (run World.empty ops0) ops).info b = some m' ↔ modelOfI (run World.empty ops0).info b = some m' := by
+  have hw0 := winv_run_perm (winv_empty List.Perm) ops0
+  generalize run World.empty ops0 = w0 at hw0 hm hav
+  have key : ∀ (ops pre : List Op) (w : World), w = run w0 pre → WInv List.Perm w → Quiet w0 m' w →
+      (∀ p op post, ops = p ++ op :: post → Op.avoids w0 m' (run w0 (pre ++ p)) op) → Quiet w0 m' (run w ops) := by
+    intro ops
+    induction ops with
+    | nil => intro pre w _ _ hq _; exact hq
+    | cons op ops ih =>
+      intro pre w hwe hwi hq hall
+      have hlen : m' < w.regs.length := by
+        have := hq.regs
+        cases h1 : w.regs[m']? with
+        | none => rw [h1, List.getElem?_eq_getElem hm] at this; simp at this
+        | some r => exact (List.getElem?_eq_some_iff.mp h1).1
+      have ha : Op.avoids w0 m' w op := by
+        have := hall [] op ops rfl
+        rw [List.append_nil, ← hwe] at this
+        exact this
+      have hstep := quiet_step hwi hlen hq op ha
+      have := ih (pre ++ [op]) (step w op) (by rw [hwe]; simp [run, List.foldl_append]) (winv_step_perm hwi op) hstep
+        (fun p o post hp => by
+          have := hall (op :: p) o post (by rw [hp]; rfl)
+          simpa [List.append_assoc] using this)
+      exact this
+  have hq := key ops [] w0 rfl hw0 (Quiet.refl w0 m') (fun p op post hp => by simpa using hav p op post hp)
+  exact ⟨hq.regs, fun b => by rw [hq.agents b]; simp [agentOf]⟩
+
+/-- non-vacuity: two models; while model 0 is left alone, model 1 sees churn, `remove_all_agents`, an in-place shuffle and an
+    activation whose callbacks remove and create agents of model 1 and raise -/
+example : (run (run World.empty [.newModel ⟨[1, 2]⟩, .newModel ⟨[3, 4, 5]⟩, .create 0 0 false [], .create 1 0 true [], .create 1 1 false []])
+    [.create 1 0 false [], .shuffle (.all 1),
+     .doSetX (fun a => if a = 1 then [.rm 2, .create 1 0 1 false] else []) (fun a => a == 3) 7 (.all 1),
+     .removeAll 1, .newModel ⟨[]⟩]).regs[0]? =
+    (run World.empty [.newModel ⟨[1, 2]⟩, .newModel ⟨[3, 4, 5]⟩, .create 0 0 false [], .create 1 0 true [], .create 1 1 false []]).regs[0]? := by
+  decide
 
 /-- **`create_agents` creates exactly n agents and splits only the sequences of length n.**  At any state, for
     every class, every n and every list of arguments (positional and keyword alike): exactly n agents are
